@@ -184,6 +184,7 @@ func (fr *frame) tryMerge(instr *ssa.If, c *Term) (merged bool) {
 	depth := len(e.spec)
 	steps := e.steps
 	csLen, dfLen := len(e.callStack), len(e.deferFrame)
+	obl, dis, con := e.obligations, e.discharged, e.concreteObl
 	defer func() {
 		if r := recover(); r != nil {
 			e.spec = e.spec[:depth]
@@ -194,6 +195,7 @@ func (fr *frame) tryMerge(instr *ssa.If, c *Term) (merged bool) {
 			switch r.(type) {
 			case specAbort, targetPanic:
 				e.steps = steps
+				e.obligations, e.discharged, e.concreteObl = obl, dis, con
 				merged = false
 				return
 			}
